@@ -17,6 +17,12 @@ CHECKS = {
         text="Thousands of generated stateless programs are compiled by the real compiler and the emitted blueprint is executed tick by tick in a Factorio 2.0 circuit model for boundary-biased int32 valuations; every named result is compared with a reference semantics. Exploration is the right level: the property quantifies over all programs x inputs and is only observable by executing the artefact.",
         design_ref="DESIGN.md 3 (C01), 2.8.1",
     ),
+    "C02": dict(
+        category="exploration",
+        technique="runtime monitoring: reference-model oracle comparing the whole signal map on each bundle's output anchor of the executed blueprint",
+        text="Generated bundle programs (literals, each-arithmetic, filters, gating, any/all, selection, chains) are compiled by the real compiler and executed in the circuit model; the complete signal map observed at every named bundle's anchor must equal the reference map for every valuation, so leaked or altered members are visible. Exploration over programs x inputs is the right level: wildcard semantics only exist at execution time.",
+        design_ref="DESIGN.md 3 (C02), 2.8.1",
+    ),
 }
 
 PENDING = {}
